@@ -16,7 +16,7 @@ DENS = [1, 2, 4, 5, 8, 10, 16, 20, 25, 40, 50, 80, 100, 125, 200, 250, 400, 500]
 
 def gaf_line(r, k):
     cg = "".join(f"{n}{op}" for n, op in r["cg"])
-    opt = ([f"tp:A:{r['tp']}"] if r["tp"] else []) + ["NM:i:1", f"cg:Z:{cg}"]
+    opt = ([f"tp:A:{r['tp']}"] if r["tp"] else []) + ["NM:i:1"] + ([f"cg:Z:{cg}"] if cg else [])     # the cg tag is optional
     return "\t".join([r["name"], str(r["qlen"]), str(r["qs"]), str(r["qe"]), "+-"[k % 2], ">s1>s2", "1000", "0", str(r["bl"]),
                       str(r["m"]), str(r["bl"]), str(r["mq"])] + opt)
 
@@ -84,6 +84,8 @@ def run(ctx):
                 n = rnd.randint(1, left)
                 cg.append([n, rnd.choice("=XID")])
                 left -= n
+            if rnd.random() < 0.15:
+                cg = []
             recs.append({"name": f"r{rnd.randint(1, 4)}", "qlen": qlen, "qs": qs, "qe": rnd.randint(qs + 1, qlen), "m": rnd.randint(0, bl),
                          "bl": bl, "mq": rnd.choice([0, 1, 30, 60]), "tp": rnd.choice(["P", "P", "S", "I", ""]), "cg": cg})
         jobs.append((f"r{ri}", recs, rnd.random() < 0.5, rnd.choice(["plain", "bgzf"])))
